@@ -1,13 +1,29 @@
 from vlib import *
 
-CODES = {1: "call_outcome", 2: "row_count", 3: "changed_row", 4: "deleted_row", 5: "full_dump",
-         6: "unrecognised_key_or_unopenable_field", 7: "lock_unlock_open_changed_database"}
-
-SEG = {"main": "BMain", "sync": "BSync", "schema": "BSchema", "scope": "BScope", "acct": "BAcct", "addr": "BAddr",
-       "usedaddrs": "BUsed", "addracctidx": "BAddrAcctIdx", "acctnameidx": "BNameIdx", "acctididx": "BIdIdx", "meta": "BMeta"}
+CODES = {1: "implementation_committed_a_call_the_model_refuses", 3: "fact_of_changed_row_not_in_model",
+         5: "complete_look_facts_differ", 7: "lock_unlock_open_changed_database", 8: "watching_only_flag_differs",
+         9: "watching_only_accessor_answers_differently"}
 
 SEAL = {"mpub": "LMasterPub", "mpriv": "LMasterPriv", "cpub": "LCryptoPub", "cpriv": "LCryptoPriv",
-        "cscript": "LScriptStored", "zero": "LZero", "none": "LNone"}
+        "cscript": "LScriptStored", "zero": "LZero", "none": "LNone",
+        "old_mpub": "LMasterPub", "old_mpriv": "LMasterPriv"}
+
+SLOT = {"mhdpriv": "LMhdPriv", "mhdpub": "LMhdPub", "cpub": "LCPub", "cpriv": "LCPriv", "cscript": "LCScript",
+        "ctpub": "LCtPub", "ctpriv": "LCtPriv", "acctpub": "LAcctPub", "acctpriv": "LAcctPriv",
+        "watchacctpub": "LWatchAcctPub", "imppub": "LImpPub", "imppriv": "LImpPriv", "scrhash": "LScrHash",
+        "scrscript_secret": "(LScrScript true)", "scrscript_public": "(LScrScript false)"}
+
+CONTENT = {"master_xprv": "CtMasterXprv", "master_xpub": "CtMasterXpub", "cointype_xprv": "CtCoinXprv",
+           "cointype_xpub": "CtCoinXpub", "account_xprv": "CtAcctXprv", "account_xpub": "CtAcctXpub",
+           "imported_xpub": "CtImpXpub", "privkey": "CtPrivKey", "pubkey": "CtPubKey", "addr_id": "CtAddrId",
+           "secret_script": "CtSecretScript", "public_script": "CtPublicScript", "crypto_key_pub": "CtKeyPub",
+           "crypto_key_priv": "CtKeyPriv", "crypto_key_script": "CtKeyScript", "passphrase": "CtPassphrase",
+           "seed": "CtSeed"}
+
+API = {"unlock": "CUnlock", "privkey": "CPrivKey", "exportprivkey": "CExportPrivKey", "secretscript": "CSecretScript",
+       "decryptprivate": "CDecryptPrivate", "decryptscript": "CDecryptScript", "newaccount": "CNewAccount",
+       "changeprivatepassphrase": "CChangePrivatePassphrase"}
+ANSWER = {"wo": "AWatchingOnly", "locked": "ALocked", "error": "AError", "served": "AServed"}
 
 
 def n(x):
@@ -78,59 +94,22 @@ def r_op(o):
     raise ValueError(k)
 
 
-def r_path(p):
-    out = []
-    for i, x in enumerate(p):
-        if x in SEG and not (i == 1 and p[0] == "scope"):
-            out.append(SEG[x])
-        elif x.startswith("acct:"):
-            out.append("BAcctOf %s" % n(int(x[5:])))
-        elif ":" in x:
-            a, b = x.split(":")
-            out.append("BScopeOf %s" % scope([int(a), int(b)]))
-        else:
-            out.append("BMeta")   # unknown bucket: cannot match any model row below its parent
-    return clist(out)
+def r_fact(f):
+    return "{| f_slot := %s; f_tag := %s; f_key := %s; f_content := %s |}" % (
+        SLOT[f["s"]], n(f.get("t", 0)), SEAL.get(f["k"], "LNone"), CONTENT.get(f["c"], "CtUnknown"))
 
 
-def r_key(k):
-    t = k[0]
-    if t == "s":
-        s = k[1]
-        if all(32 <= ord(ch) < 127 for ch in s):
-            return "HStr %s" % cstr(s)
-        return "HOther"
-    if t == "n":
-        return "HNum %s" % n(k[1])
-    if t == "a":
-        return "HAddr %s" % addrid(k[1])
-    if t == "m":
-        return "HName %s %s" % (n(k[1]), n(k[2]))
-    if t == "c":
-        return "HScope %s" % scope([k[1], k[2]])
-    return "HOther"
-
-
-def r_field(f):
-    if f[0] == "S":
-        return "HSealed %s %s" % (SEAL.get(f[1], "LNone"), n(max(f[2], 0)))
-    if f[0] == "H":
-        return "HHashed"
-    return "HClear %s" % n(f[1])
-
-
-def r_row(r):
-    return "{| h_path := %s; h_key := %s; h_val := %s |}" % (r_path(r["p"]), r_key(r["k"]),
-                                                             clist([r_field(f) for f in r.get("v") or []]))
+def r_facts(fs):
+    return clist(["\n      " + r_fact(f) for f in fs or [] if f["s"] in SLOT])
 
 
 def r_obs(o):
     full = "None"
     if o.get("hasfull"):
-        full = "Some %s" % clist(["\n      " + r_row(r) for r in o.get("full") or []])
-    dele = clist(["(%s, %s)" % (r_path(d[0]), r_key(d[1])) for d in o.get("deleted") or []])
-    return "{| o_ok := %s; o_nrows := %s; o_changed := %s;\n     o_deleted := %s; o_full := %s |}" % (
-        cbool(o["ok"]), n(o.get("nrows", 0)), clist(["\n      " + r_row(r) for r in o.get("changed") or []]), dele, full)
+        full = "Some %s" % r_facts(o.get("full"))
+    api = clist(["(%s, %s)" % (API[c], ANSWER.get(a, "AError")) for c, a in o.get("apires") or [] if c in API])
+    return "{| o_ok := %s; o_wo := %s; o_nchanged := %s; o_facts := %s;\n     o_full := %s; o_api := %s |}" % (
+        cbool(o["ok"]), cbool(o.get("wo", False)), n(o.get("nchanged", 0)), r_facts(o.get("facts")), full, api)
 
 
 def r_case(c):
@@ -143,33 +122,84 @@ class C04(Check):
     N_QUICK = 100
     N_THOROUGH = 1000
     RULE = ("2 systematic histories (every operation once, with and without a secret taproot script, conversion, reopen, "
-            "operations on the watching-only manager) + wallet-level runs (wallet.Create / Open / Unlock / NewAddress / imports / "
-            "passphrase change / conversion through InitAccounts / a recorded transaction) + generated manager histories of 8-25 "
-            "operations over 4-6 key scopes (derive locked/unlocked, new account, imports of keys, scripts of 5 kinds and xpub "
-            "accounts, renames, passphrase changes incl. wrong old passphrase, lock/unlock incl. wrong passphrase, mark-used, "
+            "operations on the watching-only manager) + 9 (thorough: 36) wallet-level runs through the real wallet package "
+            "(wallet.Create / Open / Unlock / NewAddress / imports / passphrase changes incl. wrong ones / received transactions "
+            "through the notification handler / SendOutputs = coin selection + change address + signing + recording + publishing / "
+            "sends that fail (no funds, too much, locked) / conversion through InitAccounts / reopen) + generated manager histories "
+            "of 8-25 operations over 4-6 key scopes (derive locked/unlocked, new account, imports of keys, scripts of 5 kinds and "
+            "xpub accounts, renames, passphrase changes incl. wrong old passphrase, lock/unlock incl. wrong passphrase, mark-used, "
             "synced-to incl. stale-hash deletion, new scope, neuter, second create, reopen; 70% end with conversion + reopen + "
-            "further operations). After EVERY committed transaction the whole bbolt file is scanned for every secret produced "
-            "so far (several encodings), both passphrases and every sensitive item; every row's shape is compared with the model. "
+            "further operations). After EVERY call - committed or refused - (wallet level: after every commit of any goroutine "
+            "too) (1) the whole bbolt file, all namespaces and free pages included, is scanned for every secret produced so far "
+            "(raw, hex, HEX, base58, WIF, xprv string, 78-byte serialization, base64 in 3 alignments x 2 alphabets), every passphrase "
+            "and - until a transaction is recorded - every sensitive item; (2) every sealed blob of every row that changed, in every "
+            "bucket of every namespace (fields of the known layouts + anything that opens as a whole value, at a length prefix, as a "
+            "suffix / prefix or at any offset with a secret's length), is OPENED with every key the harness derives itself from the "
+            "passphrases (public chain: mpub -> cpub, all-zero key; private chain: mpriv -> cpriv / stored script key; remembered "
+            "after conversion) and the PLAINTEXT is classified by content: no secret may open under a key of the public chain, and "
+            "on a watching-only database no live row may hold a blob that a remembered private-chain key opens to a secret; "
+            "(3) the facts (slot, key that opens it, plaintext class) are compared with the model. "
             "non-trivial = at least one address issued or imported; distinct by input")
     ASSUMPTIONS = ["bbolt's atomic commit: the only images a crash can leave behind are commit boundaries (trusted, C11)",
                    "strength of the sealing (secretbox) and of scrypt/sha256 is C17's hypothesis: Enc/Hash/Kdf are symbolic",
                    "operating-system page cache, swap and process memory are out of scope (memory is C05)"]
     PARTIAL_CLAUSES = [
-        "raw-or-serialized-text clause: decided by scanning each committed file image for the encodings raw / hex / HEX / base58 / "
-        "WIF / xprv-tprv string / 78-byte serialization; other encodings are covered only by the symbolic theorem",
-        "crash points: every commit boundary is scanned (the file as it is after each committed transaction, free pages included); "
-        "that no other image can be left behind is bbolt's atomic commit (trusted)",
-        "'no call returns private material': proved for the modelled calls as a function of the watching-only flag; the real "
-        "accessors (Unlock with every passphrase ever used, PrivKey, ExportPrivKey, Script, TaprootScript, DeriveFromKeyPath(+Cache), "
-        "Decrypt(CKTPrivate/CKTScript), NewAccount, ChangePassphrase(private)) are exercised on the reopened manager",
-        "after conversion the theorem holds outside K = histories importing a secret taproot script (deletePrivateKeys has no case for "
-        "adtTaprootScript on this tree: the sealed script row stays; the accessor refuses) - witness C04_watch_only_residue_at_K",
+        "raw-or-serialized-text clause: decided by scanning each file image for the encodings raw / hex / HEX / base58 / WIF / "
+        "xprv-tprv string / 78-byte serialization / base64 (std and URL alphabet, any alignment); other encodings of a CLEAR secret "
+        "are covered only by the symbolic theorem (sealed ones are opened and classified whatever the row)",
+        "crash points: the file is scanned as it is after each committed transaction and after each refused call (free pages "
+        "included); that no other image can be left behind is bbolt's atomic commit (trusted)",
+        "freed pages after conversion to watching-only: bbolt does not overwrite the pages of deleted rows, so the image of a "
+        "converted wallet still holds the CIPHERTEXTS of main/mpriv parameters, cpriv, cscript, mhdpriv, ctpriv, account and "
+        "imported private keys and secret scripts (observations.old_ciphertext_in_free_pages...: nearly every converted run), and "
+        "the remembered private-chain keys still open them: a holder of the OLD private passphrase and of a copy of the file can "
+        "recover the keys until the pages are reused. The property's text asks for no key 'in raw or serialized text form' "
+        "(ciphertext is neither) and, after conversion, for 'no passphrase unlocks it and no call returns private material' "
+        "(behaviour of the reopened wallet): free pages are outside its letter; measured, not raised; theorem (c) is about live rows",
+        "'no call returns private material': proved for the modelled calls as a function of the watching-only flag; the answers of "
+        "the real accessors of the REOPENED manager (Unlock with every passphrase ever used, PrivKey, ExportPrivKey, Script, "
+        "TaprootScript, DeriveFromKeyPath(+Cache), Decrypt(CKTPrivate/CKTScript), NewAccount, ChangePassphrase(private)) are "
+        "compared with the model's [api] (correspondence code 9) and judged by the oracle; NewScopedKeyManager on a watching-only "
+        "manager creates an empty scope (no key material) - the model's CNewScope answer is not compared",
+        "after conversion: on this tree deletePrivateKeys strips secret taproot script rows too (fix 71c2e41; regenerated flag "
+        "wo_strips_taproot = true), so C04_watching_only_if_stripped applies to every history; for a tree without that case the theorem "
+        "holds outside K = histories importing a secret taproot script (witness C04_watch_only_residue_at_K, stated for sp = false); the "
+        "repaired defect's replay corpus/C04/taproot_secret_script_survives_conversion.jsonl runs first on every check",
+        "secret scripts are sealed under the all-zero key (Unlock never loads cryptoKeyScript, DESIGN 6 S5): readable from the file "
+        "with no passphrase; the theorems are proved in both readings of the script key ([strict]: a secret script then only counts "
+        "as sensitive data); the oracle raises it, known finding secret_readable_without_private_passphrase:secret_script",
+        "transaction store (wtxmgr) and every other namespace: no symbolic model; covered by the byte scan and the decrypt-and-"
+        "classify look of the wallet-level runs only",
     ]
-    EXTRA_TRUSTED = ["coq/Generated/TaintSites.v regenerated by lib/extract_c04.py: source-shape reader over waddrmgr/db.go "
-                     "deletePrivateKeys (switch or equivalent if/else-if chain) and manager.go Unlock; when the shape is not "
-                     "recognised the two facts are determined by running their witness scenarios on the built code "
-                     "(harness/cmd/c04 -probe); evidence field facts_source says which path ran; both facts are in any case "
-                     "re-confirmed by the row comparison of every run"]
+    EXTRA_TRUSTED = ["coq/Generated/TaintSites.v regenerated by lib/extract_c04.py: (1) source-shape reader over waddrmgr/db.go "
+                     "deletePrivateKeys (switch or equivalent if/else-if chain) and manager.go Unlock; (2) harness/cmd/extract-c04 "
+                     "(go/ast): every call of a db.go function that takes sealed fields is traced back, argument by argument, to the "
+                     "X.Encrypt(arg) that produced it - key = identity of X (key field / parameter resolved at the call sites / local "
+                     "made by newCryptoKey or newSecretKey resolved by the slot its Bytes()/Marshal() is stored in), content = origin "
+                     "class of arg; an unsealed value reaching a sealed slot, an Encrypt result that reaches no known slot, or any "
+                     "unrecognised shape is an error. When a shape is not recognised the facts are determined by running the witness "
+                     "scenarios on the built code (harness/cmd/c04 -probe: for the sealing table, which key opens and what is inside every "
+                     "field each operation wrote); evidence fields facts_source / sealing_sites_source say which path ran; all facts are in "
+                     "any case re-confirmed by the fact comparison of every run",
+                     "the trial decryption of the harness (snacl.CryptoKey.Decrypt of the repository, keys derived by snacl.SecretKey from "
+                     "the stored parameters and the passphrases the harness holds)"]
+
+    def gen_args(self, tier, seed):
+        n = self.N_QUICK if tier == "quick" else self.N_THOROUGH
+        pre = []
+        corpus = os.path.join(VERIF, "corpus", "C04")
+        if os.path.isdir(corpus):
+            # witnesses of the recorded findings run first (files directly in corpus/C04; corpus/C04/observations is not replayed)
+            p = os.path.join(WORK, "corpus_C04.jsonl")
+            os.makedirs(WORK, exist_ok=True)
+            with open(p, "w") as out:
+                for f in sorted(os.listdir(corpus)):
+                    if f.endswith(".jsonl"):
+                        for line in open(os.path.join(corpus, f)):
+                            if line.strip():
+                                out.write(json.dumps({"in": json.loads(line)["in"]}) + "\n")
+            pre.append([self.vh_cmd(), "-replay", p])
+        return pre + [[self.vh_cmd(), "-n", str(n), "-seed", str(seed), "-tier", tier]]
 
     def nontrivial(self, c):
         return "has_addresses" in (c.get("tags") or [])
@@ -215,7 +245,8 @@ class C04(Check):
         ops = c["in"]["ops"]
         last = [o for o in c["obs"] if o.get("ok")][-1:] or [{}]
         return dict(mode=c["in"].get("mode"), ops=ops, tags=c.get("tags"), oracle=c.get("oracle"),
-                    last_commit=dict((k, last[0].get(k)) for k in ("nrows", "needles", "image", "canary", "residue", "api")))
+                    last_commit=dict((k, last[0].get(k)) for k in ("nrows", "needles", "image", "canary", "opened", "facts",
+                                                                       "residue", "api", "apires")))
 
     def render_cases(self, cases):
         return """From Coq Require Import String.
@@ -264,6 +295,9 @@ Print bad.
                 problems.append("bytes of a master/crypto key found in the clear in the file image, case %d: %s" % (i, km))
             if "oracle_address_mismatch" in t:
                 problems.append("independent address derivation disagrees with the manager, case %d" % i)
+            fc = [x for x in t if x.startswith("failed_call_changed_database:")]
+            if fc and c["in"].get("mode") != "wallet":
+                problems.append("a refused call changed the database (the model takes a refusal as writing nothing), case %d: %s" % (i, fc))
         return mism, logs, problems
 
     def facts_source(self):
@@ -271,20 +305,41 @@ Print bad.
             txt = open(os.path.join(COQ, "Generated", "TaintSites.v")).read()
             m = re.search(r"\(\* facts source: (.*?) \*\)", txt, re.S)
             line = re.sub(r"\s+", " ", m.group(1)) if m else "unknown"
+            m2 = re.search(r"\(\* sealing sites source: (.*?) \*\)", txt, re.S)
+            line2 = re.sub(r"\s+", " ", m2.group(1)) if m2 else "unknown"
             flags = dict(re.findall(r"Definition (wo_strips_taproot|unlock_decrypts_script_key) : bool := (\w+)\.", txt))
-            return line.split(" ", 1)[0], line, flags
+            table = dict((a, "%s %s" % (k, c)) for a, k, c in
+                         re.findall(r"\| (X\w+) => \{\| e_key := (\w+); e_content := (\w+) \|\}", txt))
+            return line.split(" ", 1)[0], line, flags, line2, table
         except OSError as e:
-            return "unknown", str(e), {}
+            return "unknown", str(e), {}, "unknown", {}
 
     def extra_coverage(self, cases):
-        commits = sum(1 for c in cases for o in c["obs"] if o.get("ok") and o.get("commits"))
-        scans = sum(1 for c in cases for o in c["obs"] if o.get("ok"))
-        needles = max([o.get("needles", 0) for c in cases for o in c["obs"]] + [0])
+        obs = [o for c in cases for o in c["obs"]]
+        commits = sum(1 for o in obs if o.get("ok") and o.get("commits"))
+        needles = max([o.get("needles", 0) for o in obs] + [0])
         conv = [c for c in cases if "converted" in (c.get("tags") or [])]
-        src, detail, flags = self.facts_source()
+        src, detail, flags, sites_detail, table = self.facts_source()
+        wallet = [c for c in cases if c["in"].get("mode") == "wallet"]
+        facts = {}
+        for o in obs:
+            for f in (o.get("facts") or []) + (o.get("full") or []):
+                k = "%s%s sealed under %s holds %s" % (f["s"], (":row_type_%d" % f["t"]) if f.get("t") else "", f["k"], f["c"])
+                facts[k] = facts.get(k, 0) + 1
+        free = {}
+        for c in conv:
+            for t in c["tags"]:
+                if t.startswith("residue_free:"):
+                    free[t[len("residue_free:"):]] = free.get(t[len("residue_free:"):], 0) + 1
         return dict(
             facts_source=src, facts_source_detail=detail, regenerated_facts=flags,
-            committed_transactions_scanned=commits, images_scanned=scans, max_needles=needles,
+            sealing_sites_source=sites_detail.split(" ", 1)[0], sealing_sites_source_detail=sites_detail, sealing_table=table,
+            committed_transactions_scanned=commits, images_scanned=sum(1 for o in obs if o.get("scanned")),
+            refused_calls_scanned=sum(1 for o in obs if o.get("scanned") and not o.get("ok")),
+            sealed_fields_opened_and_classified=sum(o.get("opened", 0) for o in obs),
+            observed_facts=facts,
+            sealed_blobs_outside_known_layouts=sum(len(o.get("extra") or []) for o in obs),
+            max_needles=needles,
             histories_with_conversion=len(conv),
             api_checked_after_reopen=sum(1 for c in cases if "api_checked" in (c.get("tags") or [])),
             observations=dict(
@@ -293,10 +348,16 @@ Print bad.
                 kinds=sorted({t[len("residue_kind:"):] for c in conv for t in c["tags"] if t.startswith("residue_kind:")}),
                 old_ciphertext_still_in_free_pages_after_conversion=sum(
                     1 for c in conv if "residue:old_ciphertext_in_free_pages" in c["tags"]),
+                old_ciphertext_in_free_pages_opens_with_old_private_passphrase=sum(
+                    1 for c in conv if "residue:old_ciphertext_in_free_pages_opens_with_old_private_passphrase" in c["tags"]),
+                freed_page_residue_by_row_class=free,
                 old_master_key_parameters_still_in_free_pages=sum(
                     1 for c in conv if "residue:old_master_params_in_free_pages" in c["tags"]),
-                note="observations outside the letter of C04 (sealed data, not clear text); see DESIGN section 6 S5 and the C04 paragraph"),
-            wallet_level_cases=sum(1 for c in cases if c["in"].get("mode") == "wallet"),
+                note="freed pages are outside the letter of C04 (ciphertext, not clear text; not a live row): see partial_clauses"),
+            wallet_level_cases=len(wallet),
+            wallet_level_with_sends=sum(1 for c in wallet if any(op["k"] == "send" and o.get("ok") for op, o in zip(c["in"]["ops"], c["obs"]))),
+            wallet_level_commits_scanned=sum(o.get("commits", 0) for c in wallet for o in c["obs"]),
+            harness_wall_ms=sum(c.get("wall_ms", 0) for c in cases),
             model_failures=[dict(case=ci, detail=cases[ci].get("first_failures")) for ci in sorted(self.fail_detail)][:5]
             if hasattr(self, "fail_detail") else [],
         )
